@@ -221,12 +221,66 @@ def topOK (A : Arith V F) (isTop : Bool) (n : Nat) (xs : List (Pt V)) (out : Lis
   | some rest => rest.all fun r => out.all fun o => !better A isTop r o
   | none => false
 
-/-- integral without GROUP BY time: the trapezium rule over consecutive points, in
-    `unit`s (consecutive points with one timestamp enclose no area: the curve jumps) -/
+/-! ### integral: trapezium rule, per GROUP BY time window -/
+
+/-- window `[start, end)` of a timestamp for `GROUP BY time(dur, off)`, `dur > 0` -/
+def winOf (dur off t : Int) : Int × Int :=
+  let s := t - (t - off) % dur
+  (s, s + dur)
+
+/-- area of the trapezium between two points of the curve, in `unit`s -/
+def trapezium (A : Arith V F) (unit : Int) (ta : Int) (va : F) (tb : Int) (vb : F) : F :=
+  A.fo.mul (A.fo.mul A.fo.half (A.fo.add vb va)) (A.fo.div (A.fo.ofInt (tb - ta)) (A.fo.ofInt unit))
+
+/-- value of the straight line through `(ta, va)`, `(tb, vb)` at time `t` -/
+def lineAt (A : Arith V F) (t ta tb : Int) (va vb : F) : F :=
+  A.fo.add (A.fo.mul (A.fo.div (A.fo.sub vb va) (A.fo.ofInt (tb - ta))) (A.fo.ofInt (t - ta))) va
+
+/-- the segments of the curve: consecutive points at different times (consecutive points
+    with one timestamp enclose no area: the curve jumps) -/
+def segments (xs : List (Pt V)) : List (Pt V × Pt V) :=
+  (adj xs).filter fun (a, b) => decide (a.t ≠ b.t)
+
+/-- integral without GROUP BY time: the sum of the trapezia, left to right from 0 -/
 def trapezia (A : Arith V F) (unit : Int) (xs : List (Pt V)) : F :=
-  ((adj xs).filter fun (a, b) => decide (a.t ≠ b.t)).foldl (fun s (a, b) =>
-    A.fo.add s (A.fo.mul (A.fo.mul A.fo.half (A.fo.add (A.vo.toF b.v) (A.vo.toF a.v)))
-      (A.fo.div (A.fo.ofInt (b.t - a.t)) (A.fo.ofInt unit)))) (A.fo.ofInt 0)
+  (segments xs).foldl (fun s (a, b) =>
+    A.fo.add s (trapezium A unit a.t (A.vo.toF a.v) b.t (A.vo.toF b.v))) (A.fo.ofInt 0)
+
+/-- the part of segment `(a, b)` that lies in the window starting at `ws` (ascending
+    time): the whole segment, or the piece up to the window end / from the window start,
+    cut at the linearly interpolated boundary value -/
+def pieceIn (A : Arith V F) (unit dur off ws : Int) (a b : Pt V) : Option F :=
+  let wa := winOf dur off a.t
+  let wb := winOf dur off b.t
+  let va := A.vo.toF a.v
+  let vb := A.vo.toF b.v
+  if wa.1 = ws ∧ wb.1 = ws then some (trapezium A unit a.t va b.t vb)
+  else if wa.1 = ws then some (trapezium A unit a.t va wa.2 (lineAt A wa.2 a.t b.t va vb))
+  else if wb.1 = ws then some (trapezium A unit wa.2 (lineAt A wa.2 a.t b.t va vb) b.t vb)
+  else none
+
+/-- no segment jumps over a whole window (then every piece of the curve lies in a window
+    that holds a point) -/
+def noSkip (dur off : Int) (xs : List (Pt V)) : Bool :=
+  (segments xs).all fun (a, b) => decide ((winOf dur off b.t).1 ≤ (winOf dur off a.t).2)
+
+def ascending (xs : List (Pt V)) : Bool := (adj xs).all fun (a, b) => decide (a.t ≤ b.t)
+
+def dedupI : List Int → List Int
+  | [] => []
+  | [x] => [x]
+  | x :: y :: r => if x = y then dedupI (y :: r) else x :: dedupI (y :: r)
+
+/-- integral with GROUP BY time(dur, off) over an ascending series: one row per window
+    that holds a point, stamped with the window start, the area of the curve inside the
+    window (pieces summed left to right from 0); the window of the last point is left out
+    when that point sits exactly on its start (no area yet). -/
+def integralWindowed (A : Arith V F) (unit dur off : Int) (xs : List (Pt V)) : List (Pt F) :=
+  let starts := dedupI (xs.map fun p => (winOf dur off p.t).1)
+  let lastT := xs.getLast?.map (·.t)
+  starts.filterMap fun ws =>
+    if starts.getLast? = some ws ∧ lastT = some ws then none
+    else some ⟨ws, ((segments xs).filterMap fun (a, b) => pieceIn A unit dur off ws a b).foldl A.fo.add (A.fo.ofInt 0)⟩
 
 /-! ### the statement on one observation -/
 
@@ -258,14 +312,17 @@ def verdict (A : Arith V F) (isInt : Bool) (o : Obs V F) : Option String :=
   | .median =>
     match o.out with
     | some (.f [p]) =>
+      -- aggregates carry no time of their own (`ZeroTime`; the interval iterator stamps the
+      -- window start over whatever the reducer reports, so a one-point window may also
+      -- come back as that point)
       if !medianValueOK A o.xs p.v then some "median"
-      else if p.t ≠ zeroTime then some "single-point-time" else none
+      else if p.t = zeroTime ∨ o.xs.map (·.t) = [p.t] then none else some "median"
     | _ => some "median"
   | .mode =>
     match o.out with
     | some (.v [p]) =>
       if !modeValueOK A o.xs p.v then some "mode"
-      else if p.t ≠ zeroTime then some "single-point-time"
+      else if !(p.t = zeroTime ∨ o.xs.map (·.t) = [p.t]) then some "mode"
       else if !modeTieOK A o.xs p.v then some "mode-tie"
       else none
     | _ => some "mode"
@@ -286,20 +343,27 @@ def verdict (A : Arith V F) (isInt : Bool) (o : Obs V F) : Option String :=
     match o.out with
     | some (.v l) => if topOK A false n o.xs l then none else some "bottom"
     | _ => some "bottom"
-  | .integral unit dur _ _ _ _ =>
-    -- only the un-windowed form is stated here (see Spec notes): one point, the area
-    if dur = 0 ∧ !isInt then
-      match o.out, o.xs.getLast? with
-      | some (.f l), some lastp =>
-        -- the reducer reports nothing when the last timestamp is 0 (its window start)
-        if lastp.t = 0 then (if l.isEmpty then none else some "integral")
-        else if ptsEq A.eqvF l [⟨0, trapezia A unit o.xs⟩] then none else some "integral"
-      | some (.f l), none => if l.isEmpty then none else some "integral"
-      | _, _ => some "integral"
-    else
-      match o.out with
-      | some (.f _) => none
-      | _ => some "integral"
+  | .integral unit dur off st en asc =>
+    match o.out with
+    | some (.f l) =>
+      -- the definition does not depend on the direction the series is read in
+      let xs := if asc then o.xs else o.xs.reverse
+      let l := if asc then l else l.reverse
+      let sig := if asc then "integral" else "integral-descending"
+      if !ascending xs then none            -- not a time-ordered series: nothing stated
+      else if !xs.all (fun p => decide (st ≤ p.t) && decide (p.t ≤ en)) then none   -- outside the statement's range
+      else if dur = 0 then
+        -- one row at the statement's start time (`MinTime` is reported as 0), nothing when
+        -- the series ends on it
+        let t0 := if isInt then (if st = -9223372036854775806 then 0 else st) else 0
+        match xs.getLast? with
+        | none => if l.isEmpty then none else some sig
+        | some lastp =>
+          if lastp.t = t0 then (if l.isEmpty then none else some sig)
+          else if ptsEq A.eqvF l [⟨t0, trapezia A unit xs⟩] then none else some sig
+      else if !noSkip dur off xs then none   -- a segment spans a whole window: not stated
+      else if ptsEq A.eqvF l (integralWindowed A unit dur off xs) then none else some sig
+    | _ => some "integral"
 
 def holdsOn (A : Arith V F) (isInt : Bool) (o : Obs V F) : Bool := (verdict A isInt o).isNone
 
